@@ -1,5 +1,5 @@
 """Property -> rules registry.  Rules are added here as they are built; a property without rules is not claimed."""
-from .rules import determinism, panics, wiring, traversal, annot, shape, hygiene, enums, shrinking, fresh, sharing, codegen, abi
+from .rules import determinism, panics, wiring, traversal, annot, shape, hygiene, enums, shrinking, fresh, sharing, codegen, abi, pmoves
 
 
 def _thorough_only(rule):
@@ -12,6 +12,17 @@ def _thorough_only(rule):
 
 
 PROPS = {
+    "C11": {
+        "rules": [pmoves.rule_cycle, pmoves.rule_subst_order, codegen.rule_isel_mov_only],
+        "text": "Backend-specific pieces of the simultaneous-assignment scheme, decided per backend on folded emission lists run on the "
+                "symbolic machine: the value a cycle parks with store_temporary survives every kind of intermediate `mov` that can "
+                "occur while it is parked and reaches the restored temporary; the guard contains_spill_edge is folded over every "
+                "move tree with up to 4 nodes to determine when a spill-to-spill move (which clobbers the scratch register) can occur "
+                "with the flag unset; `mov` itself is validated for every placement pair; reference counts are updated before the "
+                "moves from the one transposed map and with the old context, 0/1/n targets map to erase/nothing/share(n-1).",
+        "assumptions": ["correctness of the spanning-forest algorithm for all assignment maps is not decided (enumeration or proof of an "
+                        "algorithm over all graphs is another family)"],
+    },
     "C13": {
         "rules": [abi.rule_abi("x86_64"), abi.rule_abi("aarch64"), abi.rule_spwriters],
         "text": "Calling convention decided on folded emission lists executed on a symbolic machine: prologue/epilogue pairing and "
